@@ -6,6 +6,7 @@ import (
 	"fmt"
 	"math"
 	"math/rand"
+	"strconv"
 	"strings"
 	"time"
 
@@ -366,8 +367,11 @@ type gen struct {
 	ctl      *env
 	be       *backend.Backend
 	ctlProxy *env // unlimited control mux in front of the back-end
-	n        int
-	maxAlloc uint64
+	// fixedReplies, when set, replaces the reply sizes derived from L_send
+	// (configurations whose limits no message can reach)
+	fixedReplies []rp
+	n            int
+	maxAlloc     uint64
 }
 
 func (g *gen) nextID() string {
@@ -751,14 +755,18 @@ func (e *env) lrecvEff() int {
 	return defaultRecv
 }
 
+// rp is a reply probe: size class and encoded size.
+type rp struct {
+	class string
+	n     int
+}
+
 func (g *gen) replyProbes(e *env, l laneSpec, rng *rand.Rand) {
 	p := padder{rng, l.gz}
-	type rp struct {
-		class string
-		n     int
-	}
 	var probes []rp
-	if e.lsend > 0 {
+	if g.fixedReplies != nil {
+		probes = g.fixedReplies
+	} else if e.lsend > 0 {
 		Ls := e.lsend
 		probes = []rp{{"reply=Ls-40", Ls - 40}, {"reply=Ls-27", Ls - 27}, {"reply=Ls-1", Ls - 1}, {"reply=Ls", Ls},
 			{"reply=Ls+1", Ls + 1}, {"reply=Ls+100", Ls + 100}, {"reply=10Ls", 10 * Ls}}
@@ -993,6 +1001,101 @@ func (g *gen) proxyMatrix(e *env, seed int) {
 	}
 }
 
+// hugeLanes is the reduced lane set of the very-large-limit configurations.
+func hugeLanes() []laneSpec {
+	ls := []laneSpec{
+		{"http", "json", false, "unary", "inproc", 0, false}, {"http", "json", true, "unary", "inproc", 0, false},
+		{"http", "proto", false, "unary", "inproc", 0, false}, {"http", "json", false, "cs", "inproc", 0, false},
+		{"http", "proto", false, "cs", "inproc", 0, false}, {"http", "proto", true, "cs", "inproc", 0, false},
+		{"http", "json", false, "ss", "inproc", 0, false}, {"http", "proto", false, "bidi", "inproc", 0, false},
+		{"http", "httpbody", false, "uploadu", "inproc", 0, false}, {"http", "httpbody", false, "upload", "inproc", 0, false},
+		{"http", "httpbody", false, "downloadu", "inproc", 0, false}, {"http", "httpbody", false, "download", "inproc", 0, false},
+		{"grpc", "json", false, "unary", "inproc", 0, false}, {"grpc-web-text", "proto", false, "unary", "inproc", 0, false},
+		{"ws", "json", false, "bidi", "sock", 1, false},
+	}
+	for _, p := range []string{"grpc", "grpc-web"} {
+		for _, gz := range []bool{false, true} {
+			for _, sh := range []string{"unary", "cs", "ss", "bidi"} {
+				if p == "grpc-web" && sh == "bidi" {
+					continue
+				}
+				ls = append(ls, laneSpec{p, "proto", gz, sh, "inproc", 0, false})
+			}
+		}
+	}
+	return ls
+}
+
+// hugeConfigs configures limits that no message can reach (2 GiB and far
+// beyond, on the receive side, the send side and both): small and medium
+// messages must be accepted and delivered intact on every lane. Limits of
+// 2^32 and more exist only where int has 64 bits.
+func (g *gen) hugeConfigs() {
+	if strconv.IntSize != 64 {
+		g.r.Count("huge_limit_configs_skipped_int_is_32_bit", 1)
+		return
+	}
+	one := int64(1)
+	vals := []int64{one << 31, one<<32 - 1, one << 32, one<<32 + 100, 8 << 30, one << 40, math.MaxInt64}
+	type cfg struct{ lr, ls int }
+	var cfgs []cfg
+	for _, v := range vals {
+		cfgs = append(cfgs, cfg{int(v), 0}, cfg{0, int(v)})
+	}
+	cfgs = append(cfgs, cfg{int(one << 32), int(one << 32)}, cfg{math.MaxInt64, math.MaxInt64}, cfg{int(one<<32 + 100), int(one << 40)})
+	type sz struct {
+		class string
+		n     int
+	}
+	szs := []sz{{"S=103/huge-limit", 103}, {"S=70000/huge-limit", 70000}}
+	if g.r.Thorough() {
+		szs = append(szs, sz{"S=5000/huge-limit", 5000})
+	}
+	sizes := map[string]int{}
+	var order []string
+	g.fixedReplies = nil
+	for _, s := range szs {
+		sizes[s.class] = s.n
+		order = append(order, s.class)
+		g.fixedReplies = append(g.fixedReplies, rp{"reply " + s.class, s.n})
+	}
+	defer func() { g.fixedReplies = nil }()
+	for _, c := range cfgs {
+		e, err := newEnv(g.hub, c.lr, c.ls)
+		if err != nil {
+			g.r.Inconclusive("mux construction failed: " + err.Error())
+			return
+		}
+		for _, l := range hugeLanes() {
+			rng := g.r.Rand(fmt.Sprintf("huge/%d/%d/%s/%s/%v/%s", c.lr, c.ls, l.proto, l.codec, l.gz, l.shape))
+			if hasReqProbe(l.shape) {
+				g.reqProbes(e, l, rng, sizes, order)
+			}
+			if hasReplyProbe(l.shape) {
+				g.replyProbes(e, l, rng)
+			}
+		}
+		e.close()
+		if g.be != nil {
+			pe, err := newProxyEnv(g.hub, g.be, c.lr, c.ls)
+			if err != nil {
+				g.r.Inconclusive("RegisterConn failed: " + err.Error())
+				return
+			}
+			for _, l := range []laneSpec{{"http", "json", false, "unary", "inproc", 0, false}, {"http", "httpbody", false, "uploadu", "inproc", 0, false},
+				{"http", "httpbody", false, "downloadu", "inproc", 0, false}, {"grpc", "proto", false, "unary", "inproc", 0, false}, {"grpc", "proto", true, "cs", "inproc", 0, false}} {
+				rng := g.r.Rand(fmt.Sprintf("huge-proxied/%d/%d/%s/%s/%s", c.lr, c.ls, l.proto, l.codec, l.shape))
+				if hasReqProbe(l.shape) {
+					g.reqProbes(pe, l, rng, sizes, order)
+				}
+				if hasReplyProbe(l.shape) {
+					g.replyProbes(pe, l, rng)
+				}
+			}
+		}
+	}
+}
+
 // defaultConfig exercises larking's default limits (4 MiB / MaxInt32) on a
 // reduced lane set: boundary sizes around 4 MiB and the hostile prefixes.
 func (g *gen) defaultConfig(withSockets bool) {
@@ -1078,6 +1181,7 @@ func RunC08(r *mon.Run) {
 		}
 	}
 	g.defaultConfig(true)
+	g.hugeConfigs()
 
 	r.Set("max_bytes_allocated_while_serving_a_hostile_prefix", g.maxAlloc)
 	if n := g.hub.orphans(); n > 0 {
